@@ -1,5 +1,5 @@
 """C02 -- scheduler core (work in progress: metadata filled in below)."""
-from props.common import other_tasks, contract_tasks, lemma_tasks, TRUSTED_CORE, SCHED_ASSUMPTIONS
+from props.common import other_tasks, contract_tasks, lemma_tasks, TRUSTED_CORE, SCHED_ASSUMPTIONS, CLOSURE_ASSUMPTION
 
 PROPERTY = "C02"
 
@@ -9,13 +9,13 @@ def tasks(tier):
             + contract_tasks("contracts.progress", "C02", tier=tier) + lemma_tasks("contracts.progress", "C02"))
             # (which outputs trigger whom, with which delay: the tables connect_one builds, served under C11)
             + contract_tasks("contracts.connect", "C11", tier=tier)
-            + other_tasks("contracts.closure", "C02", "bounded") + other_tasks("contracts.determinism_bounded", "C02", "bounded")
+            + contract_tasks("contracts.closure_ded", "C02") + lemma_tasks("contracts.closure_ded", "C02") + other_tasks("contracts.closure", "C02", "bounded") + other_tasks("contracts.determinism_bounded", "C02", "bounded")
             + other_tasks("contracts.connect_bounded", "C02", "bounded")
             + contract_tasks("contracts.tiered_time", "C08"))
 
 
 TRUSTED_BASE = TRUSTED_CORE
-ASSUMPTIONS = SCHED_ASSUMPTIONS
+ASSUMPTIONS = SCHED_ASSUMPTIONS + [CLOSURE_ASSUMPTION]
 NOT_COVERED = ["'exactly once' is proved as: a demanded time is in next_steps at most once (I5), is removed only by the step at that time, and none before until is left at normal termination; that the run terminates is the liveness half of C05 (not decided)", 'initial events (World.set_initial_event) and time 0 for time-based simulators are set up by SimRunner.__init__ / set_initial_event, which are not under contract (straight-line heappush)']
 LEVEL_TEXT = 'Exact step set: demands are justified at every schedule_step call (only the documented reasons), dedup and strict increase are invariant clauses (I5, K), range 0 <= t < until is asserted at BEGIN, nothing demanded before until is left at normal termination (postcondition of sim_process). End to end (BOUNDED, not a proof): the step times of real runs of the ungrouped scenarios of the harness (count in coverage.bounded[].bound) equal those of a sequential reference semantics written from the statement. Entity creation (a child entity carries the model of its own type: trigger classification) by a BOUNDED stand-in.'
 DESIGN_REF = "DESIGN.md section 8 (C02)"
